@@ -209,7 +209,7 @@ DEFAULT_OPTS = dict(neg=True, preds=True, member=True, calls=True, index=True, s
 
 
 def _num_paths(kind):
-    if kind == "P":
+    if kind in ("P", "E"):
         return [[["a", "a"]], [["a", "b"]], [["a", "d"], ["i", "k"]], [["c", "inc", []]], [["c", "getb", []]]]
     return [[["a", "a"]], [["a", "b"]], [["a", "p"], ["a", "a"]], [["a", "p"], ["a", "b"]], [["c", "inc", []]],
             [["a", "p"], ["a", "d"], ["i", "k"]]]
@@ -229,11 +229,11 @@ def gen_num(rng, kinds, o, allow_lit=True):
 
 def gen_obj(rng, kinds):
     vi = rng.randrange(len(kinds))
-    return ["v", vi, [] if kinds[vi] == "P" else [["a", "p"]]]
+    return ["v", vi, [] if kinds[vi] in ("P", "E") else [["a", "p"]]]
 
 
 def _p_path(kind):
-    return [] if kind == "P" else [["a", "p"]]
+    return [] if kind in ("P", "E") else [["a", "p"]]
 
 
 def gen_falsy_leaf(rng, kinds):
